@@ -38,14 +38,21 @@ def oracle(fam, ps, v):
 
 def one(fam, ps, v, positive, via_check):
     o = object.__new__(PIDInterface)
-    o.prior = {'p': [fam] + list(ps) + (['positive'] if positive else [])}
+    prior = {'p': [fam] + list(ps) + (['positive'] if positive else [])}
+    try:
+        class _M:
+            def get_parameter_dictionary(self):
+                return {}
+        PIDInterface.__init__(o, ['p'], _M(), prior)
+    except Exception:
+        o.prior = prior
     v = np.float64(v)
     if via_check:
         got = o.check_prior({'p': v})
     else:
         got = getattr(o, fam.replace('-', '_') + '_prior')('p', v)
     st, want = oracle(fam, ps, float(v))
-    if positive and v < 0:
+    if positive and v < 0 and via_check:
         st = 'out'
     if st == 'boundary':
         return None
@@ -84,13 +91,50 @@ def main():
     for it in range(SPEC.get('rounds', 400)):
         fam = rng.choice(fams)
         ps = gen(rng, fam)
-        for v in [rng.uniform(-3, 6), -1.0, -0.25, 0.5, 1.5, 1e-9, rng.uniform(0, 1)]:
+        for v in [rng.uniform(-3, 6), -1.0, -0.25, 0.5, 1.5, 0.05, rng.uniform(0, 1)]:
             for positive in (False, True):
                 for via in (False, True):
                     n += 1
                     r = one(fam, ps, v, positive, via)
                     if r:
                         return r
+    # vectors: two or three parameters of one family on ONE interface (prior parameters partly shared), evaluated twice
+    for it in range(SPEC.get('rounds', 400) // 4):
+        fam = rng.choice(fams)
+        base = gen(rng, fam)
+        entries, vals, want, ok_all = {}, {}, 0.0, True
+        for j in range(rng.choice([2, 3])):
+            ps = list(base)
+            if len(ps) > 1 and rng.random() < 0.7:
+                ps[1] = gen(rng, fam)[1]
+                if fam in ('uniform', 'log-uniform'):
+                    ps[1] = ps[0] + abs(ps[1]) + 0.1
+            elif rng.random() < 0.5:
+                ps = gen(rng, fam)
+            v = rng.uniform(0.05, 0.95) if fam == 'beta' else rng.uniform(ps[0], ps[1]) if fam in ('uniform', 'log-uniform') else rng.uniform(0.1, 4)
+            st, w = oracle(fam, ps, v)
+            if st != 'in':
+                ok_all = False
+            else:
+                want += w
+            entries['p%d' % j] = [fam] + ps
+            vals['p%d' % j] = np.float64(v)
+        if not ok_all:
+            continue
+        o = object.__new__(PIDInterface)
+        try:
+            class _M:
+                def get_parameter_dictionary(self):
+                    return {}
+            PIDInterface.__init__(o, list(entries), _M(), entries)
+        except Exception:
+            o.prior = entries
+        for rep in range(2):
+            got = o.check_prior(vals)
+            n += 1
+            if not (np.isfinite(got) and abs(got - want) <= 1e-7 * max(1.0, abs(want))):
+                return dict(reproduced=True, call='check_prior(%r) with prior %r (evaluation %d)' % ({k: float(x) for k, x in vals.items()}, entries, rep + 1),
+                            observed=float(got), expected=want)
     return dict(reproduced=False, evaluations=n)
 
 
